@@ -22,9 +22,14 @@ def variant_cells(body, adt_suffix):
     """For each variant of the enum matched in `body`: blocks control can visit when the matched
     value has that variant (other switches fork).  Returns ({variant: blocks}, switch) or (None, None)."""
     sws = [s for s in tables.discr_switches(body) if s["adt"].endswith(adt_suffix)]
-    if len(sws) != 1:
+    if not sws:
         return None, None
-    sw = sws[0]
+    # a transition may look at the state more than once (e.g. an `if let` fast path in front of the `match`): every test of
+    # the state is decided by the same variant — sound as long as the state is not replaced between two tests, which the
+    # callers check through the "constructs" lists of each cell
+    sw = dict(sws[-1])
+    by_bb = {s["bb"]: s for s in sws}
+    sw["all"] = sws
     succs = body.succs()
     out = {}
     for v in sw["variants"]:
@@ -35,8 +40,8 @@ def variant_cells(body, adt_suffix):
             if bb in seen:
                 continue
             seen.add(bb)
-            if bb == sw["bb"]:
-                st.append(sw["arms"].get(v, sw["otherwise"]))
+            if bb in by_bb:
+                st.append(by_bb[bb]["arms"].get(v, by_bb[bb]["otherwise"]))
                 continue
             st.extend(succs[bb])
         out[v] = seen
@@ -211,7 +216,24 @@ def machine_rule(rep, prog, cfg):
                     if not ok:
                         problems.append("must store the payload in the %s frame" % ("new" if v == "Initial" else "current"))
             elif m == "finish_frame":
-                if [s["rv"]["variant"] for s in states] != ["ListInProgress"]:
+                inplace = set()
+                if v == "ListInProgress" and not states:
+                    # in-place form: completed_frames.push(mem::replace(current, Frame::empty())) — the state stays a list
+                    for bb, t, ns in cs:
+                        if "alloc::vec::Vec::push" not in ns:
+                            continue
+                        if "completed_frames" not in ref_chain_fields(b, op_local(t["args"][0]), vis):
+                            continue
+                        vl = op_local(t["args"][1])
+                        for bb2, t2, ns2 in cs:
+                            if t2["dest"]["l"] == vl and ("core::mem::replace" in ns2 or "core::mem::take" in ns2):
+                                tgt_ok = "current" in ref_chain_fields(b, op_local(t2["args"][0]), vis)
+                                new_ok = "core::mem::take" in ns2 or any(n.endswith("frame::Frame::empty") for n in origin(t2["args"][1])[1])
+                                if tgt_ok and new_ok:
+                                    inplace.add(bb)
+                if inplace:
+                    pass
+                elif [s["rv"]["variant"] for s in states] != ["ListInProgress"]:
                     problems.append("must enter ListInProgress (constructs %s)" % [s["rv"]["variant"] for s in states])
                 else:
                     s = states[0]
@@ -272,8 +294,9 @@ def machine_rule(rep, prog, cfg):
                     seen.add(x)
                     if b.blocks[x]["t"]["k"] == "return":
                         return True
-                    if x == sw["bb"]:
-                        st.append(sw["arms"].get(v, sw["otherwise"]))
+                    hit = [q for q in sw.get("all", [sw]) if q["bb"] == x]
+                    if hit:
+                        st.append(hit[0]["arms"].get(v, hit[0]["otherwise"]))
                     else:
                         st.extend(g_succs[x])
                 return False
@@ -294,6 +317,7 @@ def machine_rule(rep, prog, cfg):
                         problems.append("can return without storing the payload")
                 elif m == "finish_frame":
                     req = {bb for bb in vis for s2 in b.blocks[bb]["s"] if s2["k"] == "assign" and s2["rv"]["k"] == "agg" and s2["rv"].get("variant") == "ListInProgress"}
+                    req |= inplace
                     if escapes(req):
                         problems.append("can return without starting the next frame")
                 else:
